@@ -35,6 +35,8 @@ func checkC03(c *Ctx) {
 	c03ReportBuilder(c)
 	c03ReportNode(c)
 	c03ConfigCensus(c)
+	// L7: every report is built from this call's profile, data and configurations only
+	noCrossCallState(c, "C03.L7", "no report, header field or time survives a call in a package-level variable", "a later call can be answered with an earlier call's report (its dateCreated, conforms or results) although the configuration or the clock differ")
 }
 
 // ---- L1
